@@ -44,10 +44,15 @@ func (o *Optimizer) init() error {
 }
 
 func (o *Optimizer) checkFunctionCalls(stmt Statement) error {
-	var exprs []Expression
+	var (
+		// Aggregate functions are evaluated by the aggregate plan for the
+		// select fields only, everywhere else a call is a scalar call
+		fields []Expression
+		exprs  []Expression
+	)
 	switch vstmt := stmt.(type) {
 	case *SelectStmt:
-		exprs = append(exprs, vstmt.Fields...)
+		fields = append(fields, vstmt.Fields...)
 		if vstmt.Where != nil && vstmt.Where.Expr != nil {
 			exprs = append(exprs, vstmt.Where.Expr)
 		}
@@ -62,6 +67,13 @@ func (o *Optimizer) checkFunctionCalls(stmt Statement) error {
 	case *RemoveStmt:
 		exprs = append(exprs, vstmt.Keys...)
 	}
+	if err := o.checkFunctionCallsIn(fields, true); err != nil {
+		return err
+	}
+	return o.checkFunctionCallsIn(exprs, false)
+}
+
+func (o *Optimizer) checkFunctionCallsIn(exprs []Expression, allowAggr bool) error {
 	var err error
 	// A field can be referenced by name many times, its definition is walked only once
 	seen := make(map[Expression]bool)
@@ -81,7 +93,7 @@ func (o *Optimizer) checkFunctionCalls(stmt Statement) error {
 			if !ok {
 				return true
 			}
-			err = o.checkFunctionCall(fc)
+			err = o.checkFunctionCall(fc, allowAggr)
 			return err == nil
 		})
 		if err != nil {
@@ -91,7 +103,7 @@ func (o *Optimizer) checkFunctionCalls(stmt Statement) error {
 	return nil
 }
 
-func (o *Optimizer) checkFunctionCall(fc *FunctionCallExpr) error {
+func (o *Optimizer) checkFunctionCall(fc *FunctionCallExpr, allowAggr bool) error {
 	fname, err := GetFuncNameFromExpr(fc)
 	if err != nil {
 		return err
@@ -103,6 +115,9 @@ func (o *Optimizer) checkFunctionCall(fc *FunctionCallExpr) error {
 	if funcObj, have := GetScalarFunctionByName(fname); have {
 		numArgs, varArgs = funcObj.NumArgs, funcObj.VarArgs
 	} else if aggrObj, have := GetAggrFunctionByName(fname); have {
+		if !allowAggr {
+			return NewSyntaxError(fc.GetPos(), "Aggregate function %s is only allowed in select fields", fname)
+		}
 		numArgs, varArgs = aggrObj.NumArgs, aggrObj.VarArgs
 	} else {
 		return NewSyntaxError(fc.GetPos(), "Cannot find function %s", fname)
